@@ -96,6 +96,24 @@ def campaign(c):
                 c.count('meta:reemit')
         c.count('outcome:' + impl['outcome'][0])
         c.case(key, dict(src=text[:400]) if key else None)
+    # inlining a let-bound plain value defined by a library constant (narrow integer types, byte strings) or a literal
+    consts = [x for x in lib.consts]
+    for i in range(40 if c.quick else 600):
+        r = c.rng.fork('inl%d' % i)
+        k = r.choice(consts)
+        defs = r.choice([k['path'], k['path'], '5', '0x1ff', '1.2.3.4', '"ab|00|"', 'true'])
+        use = r.choice(['eth::frame("|000000000001|", "|000000000002|", %s);', 'eth::frame("|000000000001|", "|000000000002|", text::concat("x", %s, %s));',
+                        'eth::frame("|000000000001|", "|000000000002|", std::be32(%s));' if defs[0] not in '"1' or defs == '5' else 'eth::frame("|000000000001|", "|000000000002|", %s);',
+                        'eth::frame("|000000000001|", "|000000000002|", text::len(%s));'])
+        if defs == 'true': use = 'eth::frame("|000000000001|", "|000000000002|", std::be16(%s));'
+        imp = 'import eth;\nimport text;\nimport std;\nimport %s;\n' % k['path'].split('::')[0]
+        bound = (imp + 'let v = %s;\n' % defs + use.replace('%s', 'v') + '\n').encode()
+        inl = (imp + use.replace('%s', defs) + '\n').encode()
+        ib, mb = progdiff.run_both(c, bound); progdiff.compare(c, bound, ib, mb, 'inline-bound')
+        ii, mi = progdiff.run_both(c, inl); progdiff.compare(c, inl, ii, mi, 'inline-inlined')
+        if ib['outcome'][0] != ii['outcome'][0] or (ib['outcome'][0] == 'success' and [x[1] for x in progdiff.pcap_records(ib['file'])] != [x[1] for x in progdiff.pcap_records(ii['file'])]):
+            c.violation('sem:inline-const', 'replacing a use of a let-bound plain value (%s) by its defining expression changes the output' % defs, dict(src=bound.decode(), inlined=inl.decode()))
+        c.case(('inl', defs, use), dict(kind='inline-const', defs=defs) if i % 10 == 0 else None)
     # a name is not usable inside its own let, nor before it
     SELF = ['let x = x;', 'let x = x.y;', 'let x = x();', 'let m = f.client_message(seq: m, "hello");\nm;', 'let m = f.client_ack(ack: m);\nm;',
             'let b = ipv4::udp::broadcast(1.2.3.4:1, 5.6.7.8:2, srcip: b, "x");\nb;', 'let t = text::concat("a", t);', 'let q = text::len(q);',
